@@ -36,6 +36,49 @@ func init() {
 				ok bool
 			}
 			var cands []cand
+			// functions of the package whose RESULT depends on converter names (usesMixedConverters(qs, tagDetails) bool,
+			// extracted from the chooser): a call of one is as good as reading the names
+			derivedResult := map[*types.Func]bool{}
+			for round := 0; round < 2; round++ {
+				for _, h := range p.FnList {
+					if h.Short != "index" || h.Lit != nil || h.Body() == nil || h.Decl == nil {
+						continue
+					}
+					hobj, _ := h.Pkg.TypesInfo.Defs[h.Decl.Name].(*types.Func)
+					if hobj == nil || derivedResult[hobj] {
+						continue
+					}
+					// one result that is a plain value (a flag, a count, a set of names) — not an error, and not a
+					// function that searches itself (its result depends on everything)
+					hsig, _ := hobj.Type().(*types.Signature)
+					if hsig == nil || hsig.Results().Len() != 1 {
+						continue
+					}
+					if _, isIface := hsig.Results().At(0).Type().Underlying().(*types.Interface); isIface {
+						continue
+					}
+					hSearches := false
+					for _, c := range callsInDeep(h.Body()) {
+						if fn := p.Callee(h.Pkg, c); fn != nil && fn.Name() == "SearchStreams" {
+							hSearches = true
+						}
+					}
+					if hSearches {
+						continue
+					}
+					_, hm := converterTaint(p, h, conv, derivedResult)
+					inspectShallow(h.Body(), func(x ast.Node) bool {
+						if ret, ok := x.(*ast.ReturnStmt); ok {
+							for _, e := range ret.Results {
+								if hm(e) {
+									derivedResult[hobj] = true
+								}
+							}
+						}
+						return true
+					})
+				}
+			}
 			for _, f := range p.FnList {
 				if f.Short != "index" || f.Lit != nil || f.Body() == nil || f.Name == "SearchStreams" {
 					continue
@@ -84,53 +127,7 @@ func init() {
 				}
 				// … and a condition of the function depends on what was read: taint from ConverterName through
 				// assignments, map stores (m[name] = …) and len()
-				tainted := map[types.Object]bool{}
-				mentions := func(nd ast.Node) bool {
-					hit := false
-					ast.Inspect(nd, func(y ast.Node) bool {
-						switch z := y.(type) {
-						case *ast.SelectorExpr:
-							if info.Uses[z.Sel] == types.Object(conv) {
-								hit = true
-							}
-						case *ast.Ident:
-							if o := info.Uses[z]; o != nil && tainted[o] {
-								hit = true
-							}
-						}
-						return !hit
-					})
-					return hit
-				}
-				for round := 0; round < 4; round++ {
-					ast.Inspect(f.Body(), func(y ast.Node) bool {
-						as, ok := y.(*ast.AssignStmt)
-						if !ok {
-							return true
-						}
-						for i, l := range as.Lhs {
-							var rh ast.Node
-							if len(as.Rhs) == len(as.Lhs) {
-								rh = as.Rhs[i]
-							} else if len(as.Rhs) == 1 {
-								rh = as.Rhs[0]
-							}
-							if _, isLit := rh.(*ast.FuncLit); isLit {
-								continue // a function value is not a value derived from the names
-							}
-							if ix, ok := ast.Unparen(l).(*ast.IndexExpr); ok {
-								if o := identObj(info, ix.X); o != nil && (mentions(ix.Index) || (rh != nil && mentions(rh))) {
-									tainted[o] = true
-								}
-								continue
-							}
-							if o := identObj(info, l); o != nil && rh != nil && mentions(rh) {
-								tainted[o] = true
-							}
-						}
-						return true
-					})
-				}
+				_, mentions := converterTaint(p, f, conv, derivedResult)
 				condDepends := false
 				ast.Inspect(f.Body(), func(y ast.Node) bool {
 					if ifs, ok := y.(*ast.IfStmt); ok && mentions(ifs.Cond) {
@@ -138,6 +135,11 @@ func init() {
 					}
 					return true
 				})
+				for _, c := range callsInDeep(f.Body()) {
+					if fn := p.Callee(f.Pkg, c); fn != nil && derivedResult[fn.Origin()] {
+						readsConv = true
+					}
+				}
 				readsConv = readsConv && condDepends
 				cands = append(cands, cand{f, readsConv})
 			}
@@ -158,4 +160,63 @@ func init() {
 			}
 			r.Floor(rule, 1, n)
 		})
+}
+
+// converterTaint: the locals of f that hold a value derived from DataConditionElement.ConverterName — through
+// assignments, map stores (m[name] = …), len(), and the results of functions of the package that derive theirs from
+// the names — and a predicate 'this node mentions the names or such a local'.
+func converterTaint(p *Prog, f *Fn, conv *types.Var, derived map[*types.Func]bool) (map[types.Object]bool, func(ast.Node) bool) {
+	info := f.Pkg.TypesInfo
+	tainted := map[types.Object]bool{}
+	mentions := func(nd ast.Node) bool {
+		hit := false
+		ast.Inspect(nd, func(y ast.Node) bool {
+			switch z := y.(type) {
+			case *ast.SelectorExpr:
+				if info.Uses[z.Sel] == types.Object(conv) {
+					hit = true
+				}
+			case *ast.Ident:
+				if o := info.Uses[z]; o != nil && tainted[o] {
+					hit = true
+				}
+			case *ast.CallExpr:
+				if fn := p.Callee(f.Pkg, z); fn != nil && derived[fn.Origin()] {
+					hit = true
+				}
+			}
+			return !hit
+		})
+		return hit
+	}
+	for round := 0; round < 4; round++ {
+		ast.Inspect(f.Body(), func(y ast.Node) bool {
+			as, ok := y.(*ast.AssignStmt)
+			if !ok {
+				return true
+			}
+			for i, l := range as.Lhs {
+				var rh ast.Node
+				if len(as.Rhs) == len(as.Lhs) {
+					rh = as.Rhs[i]
+				} else if len(as.Rhs) == 1 {
+					rh = as.Rhs[0]
+				}
+				if _, isLit := rh.(*ast.FuncLit); isLit {
+					continue // a function value is not a value derived from the names
+				}
+				if ix, ok := ast.Unparen(l).(*ast.IndexExpr); ok {
+					if o := identObj(info, ix.X); o != nil && (mentions(ix.Index) || (rh != nil && mentions(rh))) {
+						tainted[o] = true
+					}
+					continue
+				}
+				if o := identObj(info, l); o != nil && rh != nil && mentions(rh) {
+					tainted[o] = true
+				}
+			}
+			return true
+		})
+	}
+	return tainted, mentions
 }
